@@ -70,6 +70,12 @@ HISTORY = {
     "C05-7": "same idea as C05-3 (fourth round): caught by the tie",
     "C08-7": "C08 itself stays silent (its closed loop never follows a correlated window by an uncorrelated one); caught by C02 (tie and, after the rank-0 update variant was added, the self-consistency oracle)",
     "C09-7": "caught as built (window of the low-rank estimator after a switch)",
+    "C11-7": "undoes the repair 60520de (empty runs record forever); reported at first only as a failed model evaluation (ten million events could not be replayed): the audit now runs independently of the replay and runaway histories are judged directly",
+    "C12-8": "missed at first (no pause lasted longer than a fraction of a second; the change wakes a paused chain after 5 s): one long pause (6.5 s quick, 13 s thorough) added - a timeout longer than that would still be missed",
+    "C13-7": "caught as built",
+    "C13-8": "caught as built (recoverable errors during initialisation, added after C13-2)",
+    "C14-7": "same slip as C15-1 in the async writer: caught as built",
+    "C14-8": "C14 itself stays silent (its cases do not flush in the middle of the sampling phase); caught by C15, whose statement it breaks (flushed data are corrupted by a later flush)",
 }
 
 
